@@ -27,6 +27,7 @@ C1k == [C1 EXCEPT !.keep = TRUE, !.sigx = 3]               \* write-if-changed v
 C2  == Sh(<<"o1", "b">>, <<"o2">>, "c2", 1, <<>>, "")
 C2r == Sh(<<"o1", "a">>, <<"o2">>, "c2", 1, <<>>, "")          \* rewired
 C3  == Sh(<<"o3">>, <<"gen/o4">>, "c3", 1, <<>>, "")
+C3c == Sh(<<"o2">>, <<"o3">>, "c3", 1, <<>>, "")               \* third link of a chain c1 -> c2 -> c3
 CAll == Phony(<<"o2", "gen/o4">>, <<"<all>">>)
 
 DA == D([c1 |-> C1, c2 |-> C2], <<"o2">>)
@@ -38,11 +39,13 @@ DF == D([c1 |-> C1m, c2 |-> C2, c3 |-> C3, all |-> CAll], <<"<all>">>)
 DG == D([c1 |-> C1m, c2 |-> C2, c3 |-> C3, all |-> CAll], <<"o2">>)
 DK == D([c1 |-> C1k, c2 |-> C2], <<"o2">>)
 
+DH == D([c1 |-> C1f, c2 |-> C2, c3 |-> C3c], <<"o3">>)          \* failing head of a chain of three (delegate refusals in between)
 AllDescs == {DA, DB, DC, DD, DE, DF, DG, DK}
 Init08 == {DA, DF}
 Init09 == {DA, DB, DC}
-Init10 == {DE}
+Init10 == {DE, DH}
 Init11 == {DA, DK}
+Skip10 == {{}, {"c1"}, {"c2"}}
 TargetKeys == {TK("t")}
 NodeTargets == {TK("t"), NK("o1")}
 =============================================================================
